@@ -27,6 +27,9 @@ def register(add):
     # the two calls rand_seed makes: 55 bytes from a string in another object (V) and from the 56 bytes in front of the output in the same object (C)
     add('c15x.rand_hash.v55', P, 'rand_hash', defines=['VC_CTX_RAND', 'VC_DF_NB=2', 'VC_DF_OUTLEN=55', 'VC_DF_SHAPE_SEP'], unwindset=[DW + '.0:3'],
         bound_note='output length 55 bytes (two hash blocks, the second cut at 23 bytes: the only length rand_seed requests), input string of 0..96 bytes in its own object; block loop unwound completely', **DA)
+    # a longer input string (the entropy of a reseed can be long): same contract, input up to 192 bytes
+    add('c15x.rand_hash.v55.long', P, 'rand_hash', defines=['VC_CTX_RAND', 'VC_DF_NB=2', 'VC_DF_OUTLEN=55', 'VC_DF_SHAPE_SEP', 'VC15_INMAX=192'], unwindset=[DW + '.0:3'],
+        bound_note='output length 55 bytes, input string of 0..192 bytes in its own object; block loop unwound completely', **dict(DA, unwind=200, timeout=900))
     add('c15x.rand_hash.ctx', P, 'rand_hash', defines=['VC_CTX_RAND', 'VC_DF_NB=2', 'VC_DF_OUTLEN=55', 'VC_DF_SHAPE_CTX'], unwindset=[DW + '.0:3'],
         bound_note='output length 55 bytes, input string = the 56 bytes in front of the output in the same object (the call C = Hash_df(00 || V) of rand_seed); block loop unwound completely', **DA)
     # (general-length units rand_hash.b1-b3 with a symbolic-size output object were tried: 130 s alone at --object-bits 11, not reproducible in parallel runs: not registered)
